@@ -10,10 +10,10 @@ package apps
 // op it compares the recorded flows with accepted − undone, checks they are non-negative and that
 // nothing beyond the quota was accepted.  A window starts at Add / Update / Reset / epoch reset.
 //
-// Known finding F4 (DESIGN §6): UpdateRateLimit and Remove(+Add) zero / drop the flow but keep the
-// pending markers; a later refund of a pre-update packet is then subtracted from the NEW window.
-// The monitor recognises exactly that shape (a refund consuming a marker that survived an Update /
-// Remove) and reports it under a stable key; any other deviation is reported without key.
+// F4 (DESIGN §6, fixed by /repo commit 05cc95a): UpdateRateLimit and Remove(+Add) used to zero / drop
+// the flow but keep the pending markers, so a later refund of a pre-update packet was subtracted from
+// the NEW window.  The witness (add; send p; update | remove+add; send q; timeout p) stays here as a
+// regression case and the random histories include Update / Remove: any deviation is a violation.
 
 import (
 	"fmt"
@@ -24,22 +24,17 @@ import (
 	. "verif/harness/lib"
 )
 
-const KeyF4 = "C41-F4-stale-pending-marker-after-update-or-remove"
-
-type refPkt struct {
-	amt *big.Int
-}
-
 type refPath struct {
-	has                bool
-	maxSend, maxRecv   *big.Int
-	dur                uint64
-	value              *big.Int
-	accOut, undoneOut  *big.Int
-	accIn, undoneIn    *big.Int
-	openOut, openIn    map[uint64]*big.Int // accepted in this window, not finalised
-	staleOut, staleIn  map[uint64]*big.Int // markers that survived an Update / Remove
-	tainted            bool                // a stale marker was consumed in this window (F4 happened)
+	denom, ch         string
+	has               bool
+	maxSend, maxRecv  *big.Int
+	dur               uint64
+	value             *big.Int
+	accOut, undoneOut *big.Int
+	accIn, undoneIn   *big.Int
+	openOut, openIn   map[uint64]*big.Int // accepted in this window, not finalised
+	staleOut, staleIn map[uint64]*big.Int // markers that survived an Update / Remove
+	tainted           bool                // a stale marker was consumed in this window (F4 happened)
 }
 
 func newRefPath() *refPath {
@@ -66,7 +61,7 @@ func (p *refPath) startWindow(value *big.Int, keepMarkers bool) {
 type rlMon struct {
 	r      *Rng
 	e      *rlExec
-	report func(Violation)
+	report func(Viol)
 	reqs   []M
 	paths  map[string]*refPath
 	white  map[string]bool
@@ -76,6 +71,7 @@ type rlMon struct {
 	start  int64
 	time   int64
 	nviol  int
+	nkeyed int
 }
 
 func pkey(denom, ch string) string { return denom + "|" + ch }
@@ -84,6 +80,7 @@ func (m *rlMon) path(denom, ch string) *refPath {
 	k := pkey(denom, ch)
 	if m.paths[k] == nil {
 		m.paths[k] = newRefPath()
+		m.paths[k].denom, m.paths[k].ch = denom, ch
 	}
 	return m.paths[k]
 }
@@ -96,8 +93,16 @@ func (m *rlMon) do(in M) M {
 }
 
 func (m *rlMon) viol(key, what string, in M, observed any) {
-	m.nviol++
-	m.report(Violation{Property: "C41", Key: key, What: what, Input: in, Observed: observed, Requests: append([]M{}, m.reqs...)})
+	if key != "" {
+		// a known-finding class: confirm it a few times, keep exploring for anything else
+		m.nkeyed++
+		if m.nkeyed > 3 {
+			return
+		}
+	} else {
+		m.nviol++
+	}
+	m.report(Viol{Property: "C41", Key: key, What: what, Input: in, Observed: observed, Requests: append([]M{}, m.reqs...)})
 }
 
 // check compares the implementation's recorded flows with the reference account.
@@ -121,15 +126,7 @@ func (m *rlMon) check(in M, out M, consumedStale map[string]bool) {
 		}
 		if gotOut.Cmp(wantOut) != 0 || gotIn.Cmp(wantIn) != 0 {
 			obs := M{"limit": l, "acceptedOut": p.accOut.String(), "undoneOut": p.undoneOut.String(), "acceptedIn": p.accIn.String(), "undoneIn": p.undoneIn.String()}
-			switch {
-			case consumedStale[k]:
-				p.tainted = true
-				m.viol(KeyF4, "refund of a packet accepted before UpdateRateLimit/RemoveRateLimit was subtracted from the new window's flow (pending marker survived the update)", in, obs)
-			case p.tainted:
-				// consequence of the F4 event already reported for this window
-			default:
-				m.viol("", "recorded flow differs from (accepted in window - undone in window)", in, obs)
-			}
+			m.viol("", "recorded flow differs from (accepted in window - undone in window)", in, obs)
 		}
 		if bigOf(l["value"]).Cmp(p.value) != 0 {
 			m.viol("", "channel value differs from the supply at window start", in, l)
@@ -169,11 +166,11 @@ var monDenoms = []string{"uaaa", "ubbb"}
 var monChans = []string{"channel-0", "channel-1", "07-tendermint-0"}
 
 type monPkt struct {
-	req  M
-	dir  string
-	seq  uint64
-	amt  *big.Int
-	key  string
+	req M
+	dir string
+	seq uint64
+	amt *big.Int
+	key string
 }
 
 func (m *rlMon) history(nops int, allowAdmin bool) {
@@ -249,7 +246,7 @@ func (m *rlMon) history(nops int, allowAdmin bool) {
 				m.viol("", "AddRateLimit overwrote an existing limit", in, out)
 			}
 			p.has, p.maxSend, p.maxRecv, p.dur = true, big.NewInt(ms), big.NewInt(mr), dur
-			p.startWindow(m.sup(d), true) // markers of a removed limit survive (Remove keeps them)
+			p.startWindow(m.sup(d), false)
 		}
 		m.check(in, out, nil)
 	}
@@ -390,18 +387,9 @@ func (m *rlMon) history(nops int, allowAdmin bool) {
 			if m.time > m.start+hour {
 				m.epoch++
 				m.start += hour
-				for k, p := range m.paths {
+				for _, p := range m.paths {
 					if p.has && p.dur != 0 && m.epoch%p.dur == 0 {
-						_ = k
-						d := ""
-						for _, x := range monDenoms {
-							for _, c := range monChans {
-								if pkey(x, c) == k {
-									d = x
-								}
-							}
-						}
-						p.startWindow(m.sup(d), false)
+						p.startWindow(m.sup(p.denom), false)
 					}
 				}
 			}
@@ -427,7 +415,7 @@ func (m *rlMon) history(nops int, allowAdmin bool) {
 			out := m.do(in)
 			if p := m.path(d, ch); out["r"] == "ok" && p.has {
 				p.maxSend, p.maxRecv, p.dur = big.NewInt(ms), big.NewInt(mr), dur
-				p.startWindow(m.sup(d), true)
+				p.startWindow(m.sup(d), false)
 			}
 			m.check(in, out, nil)
 		case w < 99: // remove
@@ -438,7 +426,7 @@ func (m *rlMon) history(nops int, allowAdmin bool) {
 			in := M{"f": "remove", "denom": d, "chan": ch}
 			out := m.do(in)
 			if p := m.path(d, ch); out["r"] == "ok" && p.has {
-				p.startWindow(new(big.Int), true)
+				p.startWindow(new(big.Int), false)
 				p.has = false
 			}
 			m.check(in, out, nil)
@@ -479,26 +467,18 @@ func (m *rlMon) witnessF4(viaRemove bool) {
 	out := m.do(t)
 	st, _ := out["state"].(M)
 	lims, _ := st["limits"].([]M)
-	if len(lims) == 1 && lims[0]["out"] != "80" {
-		m.report(Violation{Property: "C41", Key: KeyF4,
-			What:  "witness: add; send p(60); update (or remove+add); send q(80); timeout p  =>  outflow " + lims[0]["out"].(string) + " instead of 80",
-			Input: t, Observed: lims[0], Requests: append([]M{}, m.reqs...)})
+	if len(lims) != 1 || lims[0]["out"] != "80" {
+		m.report(Viol{Property: "C41",
+			What:  "regression of fix 05cc95a: add; send p(60); update (or remove+add); send q(80); timeout p  =>  outflow is not 80 (stale pending marker)",
+			Input: t, Observed: lims, Requests: append([]M{}, m.reqs...)})
 	}
 }
 
-func init() {
-	for i := range Engines {
-		if Engines[i].Name == "ratelimit" {
-			Engines[i].Monitor = func(r *Rng, n int, report func(Violation)) {
-				m := &rlMon{r: r, e: newRlExec(), report: report}
-				m.witnessF4(false)
-				m.witnessF4(true)
-				for i := 0; i < n && m.nviol < 6; i++ {
-					// two thirds of the histories are free of Update/Remove: there the accounting
-					// identity must hold without exception (flows_partial)
-					m.history(20+r.Intn(60), i%3 == 0)
-				}
-			}
-		}
+func rlMonitor(r *Rng, n int, report func(Viol)) {
+	m := &rlMon{r: r, e: newRlExec(), report: report}
+	m.witnessF4(false)
+	m.witnessF4(true)
+	for i := 0; i < n && m.nviol < 6; i++ {
+		m.history(20+r.Intn(60), i%3 != 0)
 	}
 }
